@@ -67,6 +67,11 @@ def sizeof_value(F, fn, t):
         if isinstance(x, int) and isinstance(y, int):
             return x + y
         return '%s+%s' % (x, y)
+    if t[0] == 'binop' and t[1] in ('Sub', 'SubWithOverflow', 'Mul', 'MulWithOverflow'):
+        x, y = sizeof_value(F, fn, t[2]), sizeof_value(F, fn, t[3])
+        if isinstance(x, int) and isinstance(y, int):
+            return x - y if t[1].startswith('Sub') else x * y
+        return '%s%s%s' % (x, '-' if t[1].startswith('Sub') else '*', y)
     if t[0] == 'field' and t[1][0] == 'binop':  # (AddWithOverflow(a,b)).0
         return sizeof_value(F, fn, t[1])
     if t[0] == 'call' and t[1].endswith('str>::len'):
@@ -97,11 +102,12 @@ def field_path(t):
 
 
 # ----------------------------------------------------------------------------- encoders
-def enumerate_paths(fn, limit=200):
-    """acyclic entry->return paths as lists of block indices"""
+def enumerate_paths(fn, limit=400):
+    """acyclic entry->return paths as lists of block indices; a path that takes contradictory arms of two matches on
+    the same scrutinee (e.g. after a helper with its own `match item` was inlined) is infeasible and left out"""
     out = []
 
-    def go(b, path):
+    def go(b, path, cons):
         if len(out) >= limit:
             return
         if b in path:
@@ -112,10 +118,43 @@ def enumerate_paths(fn, limit=200):
             if fn.blocks[b]['term']['k'] == 'return':
                 out.append(path)
             return
+        sw = paths.switch_at(fn, b)
         for s in ss:
-            go(s, path)
-    go(0, [])
+            c2 = cons
+            if sw is not None:
+                e = paths.edge_cond(fn, b, s)
+                if e and e[0] == 'disc':
+                    key = show(e[1])
+                    listed = frozenset(int(v) for v, t in sw['targets'])
+                    allowed = ('in', frozenset(e[2])) if not e[3] else ('notin', listed - frozenset(e[2]))
+                    prev = cons.get(key)
+                    if prev is not None and not _compatible(prev, allowed):
+                        continue
+                    c2 = dict(cons)
+                    c2[key] = _meet(prev, allowed) if prev is not None else allowed
+            go(s, path, c2)
+    go(0, [], {})
     return out
+
+
+def _compatible(a, b):
+    if a[0] == 'in' and b[0] == 'in':
+        return bool(a[1] & b[1])
+    if a[0] == 'in':
+        return bool(a[1] - b[1])
+    if b[0] == 'in':
+        return bool(b[1] - a[1])
+    return True
+
+
+def _meet(a, b):
+    if a[0] == 'in' and b[0] == 'in':
+        return ('in', a[1] & b[1])
+    if a[0] == 'in':
+        return ('in', a[1] - b[1])
+    if b[0] == 'in':
+        return ('in', b[1] - a[1])
+    return ('notin', a[1] | b[1])
 
 
 def path_variant(F, fn, path):
@@ -171,30 +210,144 @@ def slice_row(F, fn, t):
     return ('?' + show(s)[:60], '?', '?')
 
 
+def _endian(n):
+    return {'to_be_bytes': 'BE', 'to_le_bytes': 'LE', 'to_ne_bytes': 'NE'}[n.rsplit('::', 1)[1]]
+
+
+def byte_array_rows(els):
+    """rows of a `[u8; N]` literal: consecutive bytes i = 0..w-1 of one `x.to_be_bytes()` form one (x, w, BE) row"""
+    rows = []
+    i = 0
+    while i < len(els):
+        e = strip(els[i])
+        if e[0] == 'cindex' and strip(e[1])[0] == 'call' and strip(e[1])[1].endswith(('to_be_bytes', 'to_le_bytes', 'to_ne_bytes')):
+            c = strip(e[1])
+            w = INT_W.get(impl_int(c[1]), 0)
+            idxs = []
+            for j2 in range(i, min(i + w, len(els))):
+                ej = strip(els[j2])
+                if ej[0] == 'cindex' and strip(ej[1])[0] == 'call' and strip(ej[1])[3] == c[3]:
+                    idxs.append(ej[2])
+            if idxs == list(range(w)):
+                rows.append((field_path(c[2][0]), w, '-' if w == 1 else _endian(c[1])))
+            else:
+                rows.append(('?bytes of %s in order %s' % (field_path(c[2][0]), idxs), w, '?'))
+            i += max(w, 1)
+        elif e[0] == 'const' and isinstance(e[2], int):
+            rows.append(('tag', 1, e[2]) if len(els) == 1 else ('const', 1, e[2]))
+            i += 1
+        else:
+            rows.append((field_path(e), 1, '-'))
+            i += 1
+    return rows
+
+
+BYTE_KINDS = ('cindex', 'const', 'cast', 'field', 'discr', 'arg', 'var', 'index')
+PASS_THROUGH = ('<impl [T]>::to_vec', '<impl [T]>::into_vec', 'From::from', 'Into::into', 'ToOwned::to_owned', 'Clone::clone',
+                'Deref::deref', 'AsRef::as_ref', 'Borrow::borrow', 'Vec::<T, A>::into_boxed_slice', 'Vec::<T, A>::as_slice', '<impl [T; N]>::as_slice')
+
+
+def bytes_layout(F, fn, t, depth=0):
+    """rows of a byte-sequence expression (array literal, concat of slices, to_vec, vec![..], to_be_bytes, ...)"""
+    s = strip(t)
+    while s[0] == 'cast':
+        s = strip(s[2])
+    if depth > 12:
+        return [('?deep', '?', '?')]
+    if s[0] == 'array':
+        els = s[1]
+        if els and all(strip(e)[0] in BYTE_KINDS for e in els):
+            return byte_array_rows(els)
+        out = []
+        for e in els:
+            out.extend(bytes_layout(F, fn, e, depth + 1))
+        return out
+    if s[0] in ('var', 'phi', 'repeat') and isinstance(s[1], int) and re.match(r'\[u8; \d+\]$', fn.local_ty(s[1])):
+        # a fixed array filled in place: the stores must tile it from offset 0 without gaps
+        size = int(re.match(r'\[u8; (\d+)\]$', fn.local_ty(s[1])).group(1))
+        st = sorted(array_store_rows(F, fn, s[1]), key=lambda r: (r[0] is None, r[0]))
+        out, at = [], 0
+        for off, what, w, en in st:
+            if off != at or not isinstance(w, int):
+                return [('?stores of %s do not tile the array: %s' % (fn.local_name(s[1]), [(r[0], r[2]) for r in st]), '?', '?')]
+            out.append((what, w, en))
+            at += w
+        if at != size:
+            return [('?stores of %s cover %d of %d bytes' % (fn.local_name(s[1]), at, size), '?', '?')]
+        return out
+    if s[0] == 'call':
+        n = s[1]
+        if n.endswith(PASS_THROUGH) and s[2]:
+            return bytes_layout(F, fn, s[2][0], depth + 1)
+        if n.endswith(('<impl [T]>::concat', 'Concat::concat', 'slice::Concat<T>>::concat')) and s[2]:
+            return bytes_layout(F, fn, s[2][0], depth + 1)
+        if n.endswith('ops::Index::index') and len(s[2]) == 2 and strip(s[2][1])[0] == 'agg' and strip(s[2][1])[1].endswith('RangeFull'):
+            return bytes_layout(F, fn, s[2][0], depth + 1)
+        if n.endswith('box_assume_init_into_vec_unsafe') and isinstance(s[3], int):
+            # vec![a, b, c]: the array is stored through the box pointer right before the call
+            blk = fn.blocks[s[3]]
+            for si, st in enumerate(blk['stmts']):
+                if st['rv']['k'] == 'agg' and st['rv'].get('agg') == 'array' and st['place']['p'] and st['place']['p'][0]['k'] == 'deref':
+                    arr = fn._def_term(('assign', s[3], si, st['rv'], []), 0, frozenset())
+                    return bytes_layout(F, fn, arr, depth + 1)
+        r = slice_row(F, fn, s)
+        return [r]
+    return [('?' + show(s)[:60], '?', '?')]
+
+
+def _owned_payload(val):
+    """x of a returned Ok(Cow::Owned(x)) / Ok(Cow::Borrowed(x))"""
+    v = strip(val)
+    if v[0] == 'agg' and v[1].endswith('result::Result') and v[2] == 'Ok':
+        v = strip(dict(v[3])['0'])
+    else:
+        return None
+    if v[0] == 'agg' and v[1].endswith('borrow::Cow') and v[3]:
+        return strip(v[3][0][1])
+    if v[0] == 'call' and v[1].endswith(('From::from', 'Into::into')) and v[2]:
+        return strip(v[2][0])
+    return None
+
+
 def encoder_rows(F, fn):
     """{variant-selector: [rows]} over the success paths of an encoder"""
+    from absint import resolve_phis
     out = {}
     unknown = []
+    multi = {l for l, ds in fn.defs().items() if len([d for d in ds if not d[-1]]) >= 2}
     for path in enumerate_paths(fn):
         if not is_success_path(fn, path):
             continue
+        env = {}
+        for b in path:
+            for l, t in fn.defs_in_block(b):
+                if l in multi:
+                    env[l] = t
+        base = _owned_payload(resolve_phis(fn.local_term_in_env(0, env), env))
+        fresh = base is not None and base[0] == 'call' and base[1].endswith(('Vec::<T>::new', 'Vec::<T>::with_capacity', 'Default::default'))
         rows = []
+        if base is not None and not fresh:
+            rows.extend(bytes_layout(F, fn, base))
+
+        def on_output(t):
+            return not fresh or paths.mentions_call(t, base[3])
         for b in path:
             c = fn.call_at(b)
             if c is None:
                 continue
             n = c.callee
-            if n.endswith('Vec::<T, A>::push'):
+            if n.endswith('Vec::<T, A>::push') and on_output(c.arg_term(0)):
                 v = strip(c.arg_term(1))
                 if v[0] == 'const':
                     rows.append(('tag', 1, v[2]))
                 else:
                     rows.append((field_path(v), 1, '-'))
-            elif n.endswith('Vec::<T, A>::extend_from_slice'):
-                rows.append(slice_row(F, fn, c.arg_term(1)))
-            elif n.endswith('RoaringBitmap>::serialize_into'):
+            elif n.endswith('Vec::<T, A>::extend_from_slice') and on_output(c.arg_term(0)):
+                rows.extend(bytes_layout(F, fn, c.arg_term(1)))
+            elif n.endswith('RoaringBitmap>::serialize_into') and on_output(c.arg_term(1)):
                 rows.append((field_path(c.arg_term(0)), 'roaring', 'portable'))
-            elif n.endswith(('Vec::<T, A>::extend', 'Vec::<T, A>::insert', 'Vec::<T, A>::append', 'Vec::<T, A>::resize', 'Write::write_all', 'Vec::<T, A>::extend_from_within')):
+            elif n.endswith(('Vec::<T, A>::extend', 'Vec::<T, A>::insert', 'Vec::<T, A>::append', 'Vec::<T, A>::resize', 'Write::write_all', 'Vec::<T, A>::extend_from_within',
+                             'Extend::extend', 'Vec::<T, A>::truncate', 'Vec::<T, A>::pop', 'Vec::<T, A>::remove', 'Vec::<T, A>::clear')) and c.args and on_output(c.arg_term(0)):
                 unknown.append(c)
                 rows.append(('?' + short(n), '?', '?'))
         sel = tuple(path_variant(F, fn, path))
@@ -204,15 +357,15 @@ def encoder_rows(F, fn):
     return out, unknown
 
 
-def nodeid_to_bytes_rows(F, fn):
-    """NodeId::to_bytes: array stores -> [(offset, what, width, endian)]"""
+def array_store_rows(F, fn, local=None):
+    """a byte array filled in place: `a[k] = x`, `a[r].copy_from_slice(&y.to_be_bytes())` -> [(offset, what, width, endian)]"""
     rows = []
     for blk in fn.blocks:
         if blk['cleanup']:
             continue
         for st in blk['stmts']:
             p = st['place']
-            if p['p'] and p['p'][-1]['k'] in ('cindex', 'index') and fn.local_name(p['l']) is not None:
+            if p['p'] and p['p'][-1]['k'] in ('cindex', 'index') and len(p['p']) == 1 and (p['l'] == local if local is not None else fn.local_name(p['l']) is not None):
                 off = None
                 if p['p'][-1]['k'] == 'cindex':
                     off = p['p'][-1]['o']
@@ -230,41 +383,37 @@ def nodeid_to_bytes_rows(F, fn):
                 src = strip(src[2])
             off = None
             if dst[0] == 'call' and dst[1].endswith('index_mut'):
+                base = strip(dst[2][0])
+                if local is not None and not (base[0] in ('var', 'phi', 'repeat') and base[1] == local):
+                    if not any(x[0] in ('var', 'phi') and x[1] == local for x in walk(base)):
+                        continue
                 r = strip(dst[2][1])
-                if r[0] == 'agg' and r[1].endswith('RangeFrom'):
+                if r[0] == 'agg' and r[1].endswith(('RangeFrom', 'ops::Range')):
                     off = sizeof_value(F, fn, dict(r[3])['start'])
+                elif r[0] == 'agg' and r[1].endswith(('RangeTo', 'RangeFull', 'RangeToInclusive')):
+                    off = 0
+            elif local is not None:
+                continue
             if src[0] == 'call' and src[1].endswith(('to_be_bytes', 'to_le_bytes', 'to_ne_bytes')):
-                en = {'to_be_bytes': 'BE', 'to_le_bytes': 'LE', 'to_ne_bytes': 'NE'}[src[1].rsplit('::', 1)[1]]
-                rows.append((off, field_path(src[2][0]), INT_W.get(impl_int(src[1]), '?'), en))
+                rows.append((off, field_path(src[2][0]), INT_W.get(impl_int(src[1]), '?'), _endian(src[1])))
             else:
                 rows.append((off, '?' + show(src), '?', '?'))
+    return rows
+
+
+def nodeid_to_bytes_rows(F, fn):
+    """NodeId::to_bytes: array stores -> [(offset, what, width, endian)]"""
+    rows = array_store_rows(F, fn)
     if not rows:
         # `[self.mode as u8, b0, b1, b2, b3]` with `let [b0, b1, b2, b3] = self.item.to_be_bytes()`
         for b, k, t in paths.ret_assigns(fn):
             a = strip(t)
             if a[0] != 'array':
                 continue
-            i = 0
-            els = a[1]
-            while i < len(els):
-                e = strip(els[i])
-                if e[0] == 'cindex' and strip(e[1])[0] == 'call' and strip(e[1])[1].endswith(('to_be_bytes', 'to_le_bytes', 'to_ne_bytes')):
-                    c = strip(e[1])
-                    w = INT_W.get(impl_int(c[1]), 0)
-                    idxs = []
-                    for j2 in range(i, min(i + w, len(els))):
-                        ej = strip(els[j2])
-                        if ej[0] == 'cindex' and strip(ej[1])[0] == 'call' and strip(ej[1])[3] == c[3]:
-                            idxs.append(ej[2])
-                    en = {'to_be_bytes': 'BE', 'to_le_bytes': 'LE', 'to_ne_bytes': 'NE'}[c[1].rsplit('::', 1)[1]]
-                    if idxs == list(range(w)):
-                        rows.append((i, field_path(c[2][0]), w, en))
-                    else:
-                        rows.append((i, '?bytes of %s in order %s' % (field_path(c[2][0]), idxs), w, '?'))
-                    i += max(w, 1)
-                else:
-                    rows.append((i, field_path(e), 1, '-'))
-                    i += 1
+            off = 0
+            for what, w, en in byte_array_rows(a[1]):
+                rows.append((off, what, w, en if w != 1 else '-'))
+                off += w if isinstance(w, int) else 1
     rows.sort(key=lambda r: (r[0] is None, r[0]))
     size = None
     rt = fn.ret_ty()
@@ -301,6 +450,11 @@ def slice_offset(F, fn, t, depth=0):
         return slice_offset(F, fn, base, depth + 1) + ['?range']
     if t0[0] in ('field', 'tuple') and t0[0] == 'field':
         b = strip(t0[1])
+        # (rest of) `x.split_first()` / `x.split_first_chunk::<N>()`
+        if b[0] == 'field' and b[2] == '0' and strip(b[1])[0] == 'downcast' and strip(b[1])[2] == 'Some' and strip(strip(b[1])[1])[0] == 'call':
+            sc = strip(strip(b[1])[1])
+            if sc[1].endswith('<impl [T]>::split_first') and sc[2]:
+                return slice_offset(F, fn, sc[2][0], depth + 1) + ([1] if t0[2] == '1' else [])
         if b[0] == 'call' and b[1].endswith('split_at'):
             base = slice_offset(F, fn, b[2][0], depth + 1)
             if t0[2] == '0':
@@ -430,7 +584,13 @@ def tag_of_return(fn, b):
     for s in paths.controlling_switches(fn, b):
         sw = paths.switch_at(fn, s)
         d = strip(fn.term(sw['discr']))
-        if d[0] == 'cindex' and d[2] == 0 and strip(d[1])[0] == 'arg':
+        first = d[0] == 'cindex' and d[2] == 0 and strip(d[1])[0] == 'arg'
+        if d[0] == 'field' and d[2] == '0' and strip(d[1])[0] == 'field' and strip(d[1])[2] == '0' and strip(strip(d[1])[1])[0] == 'downcast':
+            sc = strip(strip(strip(d[1])[1])[1])
+            first = sc[0] == 'call' and sc[1].endswith(('<impl [T]>::split_first', '<impl [T]>::first')) and sc[2] and strip(sc[2][0])[0] == 'arg'
+        if d[0] == 'downcast' and d[2] == 'Some' and strip(d[1])[0] == 'call' and strip(d[1])[1].endswith('<impl [T]>::first'):
+            first = strip(strip(d[1])[2][0])[0] == 'arg'
+        if first:
             for x in fn.succ(s):
                 if b in fn.reachable(x):
                     e = paths.edge_cond(fn, s, x)
@@ -442,10 +602,23 @@ def tag_of_return(fn, b):
 def decoder_rows(F, fn):
     """{ok-return ordinal: [(field, offset, width, endian)]}"""
     out = []
+    rets = []
     for b, k, t in paths.ret_assigns(fn):
-        if k != 'ok':
-            continue
-        payload = strip(dict(t[3])['0'])
+        if k == 'ok':
+            rets.append((b, strip(dict(t[3])['0'])))
+        elif k == 'call' and strip(t)[1].endswith('result::Result::<T, E>::map') and len(strip(t)[2]) == 2:
+            # `decode_x(payload).map(Node::X)`: the Ok alternatives of the inner result wrapped by the variant constructor
+            inner, ctor = strip(strip(t)[2][0]), strip(strip(t)[2][1])
+            alts = inner[2] if inner[0] == 'phi' else [inner]
+            cname = ctor[1] if ctor[0] in ('fn', 'ctor', 'const') and isinstance(ctor[1], str) else None
+            if cname is None:
+                continue
+            adt, var = cname.rsplit('::', 1)
+            for a in alts:
+                a0 = strip(a)
+                if a0[0] == 'agg' and a0[1].endswith('result::Result') and a0[2] == 'Ok':
+                    rets.append((b, ('agg', adt, var, [('0', dict(a0[3])['0'])])))
+    for b, payload in rets:
         if payload[0] == 'call' and payload[1] == 'key::Key::new' and len(payload[2]) == 2:
             payload = ('agg', 'key::Key', 'Key', [('index', payload[2][0]), ('node', payload[2][1]), ('_padding', ('const', 'u8', 0))])
         rows = []
